@@ -6,13 +6,14 @@ def value_corpus(F, tier, name):
     rng = gen.rng_for(name)
     q = tier == "quick"
     recs = []
-    recs += gen.g_plain(F, rng, 300 if q else 4000)
-    recs += gen.g_midpoints(F, rng, tier, nexp=60 if q else None, nrand=1 if q else 6)
-    recs += gen.g_floats_exact(F, rng, 100 if q else 2000)
-    recs += gen.g_seams(F, rng)
-    recs += gen.g_short_ties(F, rng, 1 if q else 20)
+    recs += gen.g_plain(F, rng, 200 if q else 4000)
+    recs += gen.g_midpoints(F, rng, tier, nexp=40 if q else None, nrand=1 if q else 6)
+    recs += gen.g_floats_exact(F, rng, 60 if q else 2000)
+    recs += gen.g_seams(F, rng)[:: 2 if q else 1]
+    recs += gen.g_short_ties(F, rng, 1 if q else 20)[:: 2 if q else 1]
+    recs += gen.g_low_decade(F, rng, tier, 6 if q else 300, 1 if q else 4)
     recs += gen.g_extremes(F, rng, big=20000 if q else 1000000)
-    recs += gen.g_runs(F, rng, 150 if q else 3000)
+    recs += gen.g_runs(F, rng, 80 if q else 3000)
     return gen.normalise(gen.dedup(recs))
 
 
@@ -343,12 +344,15 @@ def range_corpus(F, tier, name):
     recs = gen.g_seams(F, rng) + gen.g_extremes(F, rng, big=20000 if q else 1000000)
     recs = [r for r in recs if r["tag"].startswith(("G4:end", "G5"))]
     # every subnormal exponent position and the top binades
-    for k in (range(0, F.mbits + 2, 5) if q else range(0, F.mbits + 2)):
+    for k in (range(0, F.mbits + 2, 7) if q else range(0, F.mbits + 2)):
         frs = sorted({1 << min(k, F.mbits - 1), (1 << min(k, F.mbits - 1)) + 1, max(1, (1 << min(k, F.mbits - 1)) - 1)})
         for fr in (frs[:2] if q else frs):
             for r in gen.midpoint_variants(F, fr, rng, tier):
                 r["tag"] = "C07:subnormal:" + r["tag"].split(":")[1]
                 recs.append(r)
+    for r in gen.g_low_decade(F, rng, tier, 0, 1 if q else 6):
+        r["tag"] = "C07:lowdecade:" + r["tag"].split(":")[1]
+        recs.append(r)
     for ef in (F.emaxfield - 1, F.emaxfield - 2, 1, 2):
         for fr in ((0, (1 << F.mbits) - 1) if q else (0, 1, (1 << F.mbits) - 1, (1 << F.mbits) - 2)):
             for r in gen.midpoint_variants(F, (ef << F.mbits) | fr, rng, tier):
@@ -374,12 +378,13 @@ def c05(tier):
     for F in (gen.F64, gen.F32):
         rng = gen.rng_for("C05" + F.name)
         q = tier == "quick"
-        inputs += gen.g_plain(F, rng, 200 if q else 3000)
-        inputs += gen.g_midpoints(F, rng, tier, nexp=30 if q else 300, nrand=1 if q else 3)
-        inputs += gen.g_seams(F, rng)
-        inputs += gen.g_short_ties(F, rng, 1 if q else 10)
-        inputs += gen.g_extremes(F, rng, big=20000)
-        inputs += gen.g_runs(F, rng, 100 if q else 2000)
+        inputs += gen.g_plain(F, rng, 80 if q else 3000)
+        inputs += gen.g_midpoints(F, rng, tier, nexp=12 if q else 300, nrand=1 if q else 3)
+        inputs += gen.g_seams(F, rng)[:: 3 if q else 1]
+        inputs += gen.g_short_ties(F, rng, 1 if q else 10)[:: 4 if q else 1]
+        inputs += gen.g_low_decade(F, rng, tier, 4 if q else 300, 1 if q else 4)[:: 2 if q else 1]
+        inputs += gen.g_extremes(F, rng, big=20000)[:: 2 if q else 1]
+        inputs += gen.g_runs(F, rng, 40 if q else 2000)
     inputs = gen.normalise(gen.dedup(inputs))
     parsecheck.parse_property_check(
         "C05", tier, inputs, cfgs, {"AGREE", "VALUE"},
@@ -570,7 +575,10 @@ def round_inputs(F, rng, tier):
     exps = list(range(-63, hi + 1))
     if q:
         special = {-63, -62, -1, 0, 1, 64 - F.mbits - 2, 64 - F.mbits - 1, -(64 - F.mbits - 1), -(64 - F.mbits - 1) + 1,
-                   -(64 - F.mbits - 1) - 1, F.emaxfield - 2, F.emaxfield - 1, F.emaxfield, F.emaxfield + 1, hi}
+                   -(64 - F.mbits - 1) - 1, F.emaxfield - 2, F.emaxfield - 1, F.emaxfield, F.emaxfield + 1, hi,
+                   # the exponent whose shifted value lands exactly on / next to the all-ones field (overflow edge)
+                   F.emaxfield - (64 - F.mbits - 1) - 2, F.emaxfield - (64 - F.mbits - 1) - 1, F.emaxfield - (64 - F.mbits - 1),
+                   F.emaxfield - (64 - F.mbits - 1) + 1}
         exps = sorted(special | set(range(-63, 70, 3)) | set(rng.sample(exps, 60)))
     ms = 64 - F.mbits - 1
     out = []
@@ -968,7 +976,7 @@ def c16(tier):
         core.write_ndjson(bp, baseline)
         res = core.tlc(os.path.join(core.SPEC, "cf", "CF_Calls.tla"), os.path.join(core.SPEC, "cf", "CF_Calls.cfg"), "C16-cf-" + cfg.replace("+", "_"),
                        env={"VERIF_RECORDS": ep, "VERIF_BASELINE": bp}, coverage=False, timeout=3000)
-        verd = [p for p in res.prints if isinstance(p, dict) and "verdict" in p]
+        verd = list({p["id"]: p for p in res.prints if isinstance(p, dict) and "verdict" in p}.values())
         if core.tlc_fatal(res) or len(verd) != len(threads):
             raise core.ToolError("CF_Calls decided %d of %d threads: %s" % (len(verd), len(threads), core.tlc_fatal(res)[:2]))
         for v in verd:
